@@ -5,6 +5,10 @@ pub type Body = fn(&mut ReplaySource);
 
 pub fn bodies() -> Vec<(&'static str, Body)> {
     vec![
+        ("ev_binary_logic", crate::c08_steps::ev_binary_logic::<ReplaySource> as Body),
+        ("ev_binary_addsub", crate::c08_steps::ev_binary_addsub::<ReplaySource> as Body),
+        ("ev_binary_arith", crate::c08_steps::ev_binary_arith::<ReplaySource> as Body),
+        ("ev_unary", crate::c08_steps::ev_unary::<ReplaySource> as Body),
         ("valid_identifier_4", crate::c_scalar::valid_identifier_4::<ReplaySource> as Body),
         ("valid_identifier_6", crate::c_scalar::valid_identifier_6::<ReplaySource> as Body),
         ("single_line_comment_7", crate::c_scalar::single_line_comment_7::<ReplaySource> as Body),
